@@ -335,13 +335,16 @@ func (cs *ContractSet) parseClause(c *Contract, kind, rest, where string) {
 		}
 		cl.Loop = k
 		cl.Kind = f[1]
-		if cl.Kind != "invariant" && cl.Kind != "decreases" && cl.Kind != "modifies" && cl.Kind != "exit" {
+		if cl.Kind != "invariant" && cl.Kind != "decreases" && cl.Kind != "modifies" && cl.Kind != "exit" && cl.Kind != "step" {
 			cs.errorf(where, "bad loop clause kind %q", cl.Kind)
 			return
 		}
 		rest = strings.TrimSpace(strings.SplitN(rest, f[1], 2)[1])
 		if cl.Kind == "modifies" {
 			cl.Kind = "loopmodifies"
+		}
+		if cl.Kind == "step" {
+			cl.Kind = "loopstep"
 		}
 		if cl.Kind == "exit" {
 			// loop K exit [label:] E: asserted where control leaves the loop (normal exit and breaks joined)
